@@ -387,6 +387,106 @@ func c08ClientType(c *core.Ctx, nt *types.Named, fam []*ssa.Function) {
 		return
 	}
 	// (a) the probe lies on every single-response success path after the decode into the caller's message
+	isProbeish := func(in ssa.Instruction) bool {
+		for _, pr := range probes {
+			if pr.instr == in {
+				return true
+			}
+		}
+		if call, ok := in.(*ssa.Call); ok {
+			// a call to a family member that contains a probe and is handed our message
+			ci := core.InfoOf(&call.Call)
+			if ci.Static != nil && inFam[ci.Static] {
+				for _, pr := range probes {
+					if pr.fn == ci.Static {
+						return true
+					}
+				}
+			}
+		}
+		return false
+	}
+	// succeedsWithoutProbe: starting after instruction d of f (the decode, or a call that decodes), whose
+	// error result is d itself, a success return of f is reachable on a single-response path without a probe
+	var succeedsWithoutProbe func(f *ssa.Function, d *ssa.Call, depth int) bool
+	succeedsWithoutProbe = func(f *ssa.Function, d *ssa.Call, depth int) bool {
+		edgeOK := func(b *ssa.BasicBlock, si int) bool {
+			iff, ok := b.Instrs[len(b.Instrs)-1].(*ssa.If)
+			if !ok {
+				return true
+			}
+			fct := core.CondFact(iff.Cond, si == 0)
+			// decode failed ⇒ not a success path
+			if fct.Op == token.NEQ && core.IsNilConst(fct.Y) && fct.X == ssa.Value(d) {
+				return false
+			}
+			// flag says streaming ⇒ no probe needed
+			if fct.Op == token.ILLEGAL {
+				if is, singleWhenTrue := singlePolarity(p, fct.X, f, tn, flag, fam, 0); is {
+					valTrue := !fct.Neg
+					if valTrue != singleWhenTrue {
+						return false
+					}
+				}
+			}
+			return true
+		}
+		visited := core.Walk(core.After(d), isProbeish, edgeOK)
+		bad := false
+		for _, r := range core.ErrReturns(f) {
+			if !visited[r] {
+				continue
+			}
+			for _, l := range core.ErrLeaves(r.Results[len(r.Results)-1], r) {
+				if l.Class != core.ErrNonNil && !(l.V == ssa.Value(d)) {
+					bad = true
+				}
+				if l.V == ssa.Value(d) {
+					// returning the decode error itself on the success edge is nil: that is a success return
+					bad = bad || reachesWithNilDecode(d, r, isProbeish, edgeOK)
+				}
+			}
+		}
+		if !bad || depth >= 2 {
+			return bad
+		}
+		// the decision "single response ⇒ probe" may be taken by the callers of f instead (the flag was
+		// replaced by two entry points): every call of f in the family that hands on the caller's own message
+		// must then be followed by the probe, unless that call sits on the streaming edge of the flag
+		nSites, allOK := 0, true
+		for _, g := range fam {
+			gm := msgParam(g)
+			if gm == nil || g == f {
+				continue
+			}
+			for _, cs := range core.CallsIn(g, func(_ *ssa.Call, ci core.CallInfo) bool { return ci.Static == f }) {
+				own := false
+				for _, a := range cs.Call.Args {
+					if core.OriginIs(a, func(o ssa.Value) bool { return o == ssa.Value(gm) }) {
+						own = true
+					}
+				}
+				if !own {
+					continue // a probe call with a scratch destination
+				}
+				nSites++
+				streaming := core.GuardedBy(cs, func(fct core.Fact) bool {
+					if fct.Op != token.ILLEGAL {
+						return false
+					}
+					is, singleWhenTrue := singlePolarity(p, fct.X, g, tn, flag, fam, 0)
+					return is && (!fct.Neg) != singleWhenTrue
+				})
+				if streaming {
+					continue
+				}
+				if succeedsWithoutProbe(g, cs, depth+1) {
+					allOK = false
+				}
+			}
+		}
+		return !(nSites > 0 && allOK)
+	}
 	for _, f := range fam {
 		mpar := msgParam(f)
 		if mpar == nil {
@@ -394,64 +494,7 @@ func c08ClientType(c *core.Ctx, nt *types.Named, fam []*ssa.Function) {
 		}
 		for _, d := range decodeCalls(f, mpar) {
 			key := fmt.Sprintf("%s:%s:probe-after-decode", tk, f.Name())
-			isProbeish := func(in ssa.Instruction) bool {
-				for _, pr := range probes {
-					if pr.instr == in {
-						return true
-					}
-				}
-				if call, ok := in.(*ssa.Call); ok {
-					// a call to a family member that contains a probe and is handed our message
-					ci := core.InfoOf(&call.Call)
-					if ci.Static != nil && inFam[ci.Static] {
-						for _, pr := range probes {
-							if pr.fn == ci.Static {
-								return true
-							}
-						}
-					}
-				}
-				return false
-			}
-			edgeOK := func(b *ssa.BasicBlock, si int) bool {
-				iff, ok := b.Instrs[len(b.Instrs)-1].(*ssa.If)
-				if !ok {
-					return true
-				}
-				fct := core.CondFact(iff.Cond, si == 0)
-				// decode failed ⇒ not a success path
-				if fct.Op == token.NEQ && core.IsNilConst(fct.Y) && fct.X == ssa.Value(d) {
-					return false
-				}
-				// flag says streaming ⇒ no probe needed
-				if fct.Op == token.ILLEGAL {
-					if is, singleWhenTrue := singlePolarity(p, fct.X, f, tn, flag, fam, 0); is {
-						valTrue := !fct.Neg
-						if valTrue != singleWhenTrue {
-							return false
-						}
-					}
-				}
-				return true
-			}
-			visited := core.Walk(core.After(d), isProbeish, edgeOK)
-			bad := false
-			for _, r := range core.ErrReturns(f) {
-				if !visited[r] {
-					continue
-				}
-				for _, l := range core.ErrLeaves(r.Results[len(r.Results)-1], r) {
-					if l.Class != core.ErrNonNil && !(l.V == ssa.Value(d)) {
-						bad = true
-					}
-					if l.V == ssa.Value(d) {
-						// returning the decode error itself on the success edge is nil: that is a success return
-						if core.GuardedBy(l.At, func(fc core.Fact) bool { return fc.Op == token.EQL && core.IsNilConst(fc.Y) && fc.X == ssa.Value(d) }) || true {
-							bad = bad || reachesWithNilDecode(d, r, isProbeish, edgeOK)
-						}
-					}
-				}
-			}
+			bad := succeedsWithoutProbe(f, d, 0)
 			c.Check(!bad, key, d.Pos(), "every single-response success path after the decode passes the second-receive probe", "a single-response receive can succeed after decoding the first message without probing for a second one")
 		}
 	}
